@@ -721,7 +721,7 @@ def wire_histories(rng, tier: str, pts):
     for i in range(k):
         version = lib.VERSIONS[i % 5]
         h = gw.gen_history(rng, version, rng.randint(5, 40 if tier == "quick" else 120), preload_p=0.0)
-        hs.append(("wire-random", h, {pts.randint(1, len(h.ops))} if tier == "quick" else "all"))
+        hs.append(("wire-random", h, {pts.randint(1, len(h.ops)) for _ in range(1 if tier == "quick" else 2)}))
     return hs
 
 
@@ -2162,7 +2162,7 @@ def run_c13(ctx) -> Corr:
                 "handed an id and never presents itself, on a presented node, on the gateway's node and on an unregistered "
                 "node, the version becoming known in between; then random histories over 5 versions), saved at the end AND "
                 "inside the history (systematic / boundary / corpus: after every step that changed the registry; random: at "
-                "one random step; a registry already saved is not saved twice; whatever the registry holds - None, a value of "
+                "one random step, two in the thorough tier; a registry already saved is not saved twice; whatever the registry holds - None, a value of "
                 "another type - is rendered and judged, a registry the model's typed Registry cannot hold by the oracle alone), "
                 "and directly constructed registries (boundary content: "
                 "negative/huge/digit-limit integers, empty/non-ASCII/control-character strings, unsorted insertion order), "
